@@ -175,9 +175,25 @@ def _install():
     return _INSTALLED[0]
 
 
+class _RSMeta(type):
+    def __instancecheck__(cls, x): return isinstance(x, np.random.RandomState)
+
+
+class _RSFactory(metaclass=_RSMeta):
+    """what bct sees as np.random.RandomState: isinstance works as usual; construction is reported to the harness
+    (which may hand back a labelled symbolic stream) and otherwise builds the real thing"""
+    owner = None
+    def __new__(cls, seed=None):
+        g = cls.owner
+        if g is not None and g.ctor_hook is not None: return g.ctor_hook(seed)
+        return np.random.RandomState(seed)
+
+
 class _GlobalStream:
     """stand-in for the module `np.random` inside bct modules: draws come from a separately labelled SymRNG"""
-    def __init__(self): self.rng = None; self.RandomState = np.random.RandomState; self.mtrand = self
+    def __init__(self):
+        self.rng = None; self.mtrand = self; self.ctor_hook = None
+        _RSFactory.owner = self; self.RandomState = _RSFactory
     @property
     def _rand(self):
         if self.rng is None: raise RuntimeError('global random stream touched but harness installed none')
@@ -238,7 +254,7 @@ def run_case_symbolic(hname, case, opts):
     def body():
         arr.CFG.update(lazy_where=False, concretize_index=False, argsort_declarative=True)
         arr.CFG.update(case.get('cfg', {}))
-        g = _INSTALLED[0][2]; g.rng = None
+        g = _INSTALLED[0][2]; g.rng = None; g.ctor_hook = None
         mode = SymMode(case, eng); state['mode'] = mode
         mode.global_stream = g
         try:
